@@ -19,6 +19,10 @@ class IdentityHash:
             return False
         return id(self.obj) == id(other.obj)
 
+    def __repr__(self):
+        # no memory address: this text is printed, and compared to price edits, for cyclic references
+        return f"{self.__class__.__name__}({type(self.obj).__name__})"
+
 
 class ObjectSet(MutableSet):
     """A set that can hold unhashable Python objects
